@@ -46,6 +46,11 @@ claimed = {
   text="A fixed import-free interpreter with 14 key/value type pairs is compiled by the llgo under test; rapid generates point-operation histories (including bulk growth/churn up to 20000 keys, special float keys, mixed interface keys, unhashable keys) compared step by step with gc, and range loops with scripted mutations whose transcripts must satisfy the spec's iteration guarantees and leave the modelled final map. Exploration only.",
   note="gc's map is the reference for point operations; which of +0/-0 a map keeps as key is not compared; loops over 160-byte keys/values are kept short because of the listed stack-exhaustion finding.",
   design="§3 C06"),
+ "C03": dict(
+  technique="differential testing with generated operand tuples (rapid) around every bound: llgo-compiled operation table vs the same functions executed natively",
+  text="A fixed import-free program with 386 operation functions (every indexable kind x form x index type, make, conversions, nil dereference in every syntactic position, maps, assertions, division, channels, side-effect ordering) is compiled by the llgo under test at O0/O2/Oz/O2+nogc; rapid draws tuples around the bounds (half in range), nil-ness flags and repeat counts; each execution is compared with native gc execution for panic/no panic, error class, trace points, call order, surviving state, results and runtime.Error-ness. Exploration only.",
+  note="Panic texts compared by class; unspecified evaluation orders are not generated; make sizes small or absurd; three nil-dereference findings (no explicit nil checks) listed in known_findings.json.",
+  design="§3 C03"),
 }
 not_yet = "check not built yet in this session (see DESIGN.md §3 for the planned generated-input check)"
 
